@@ -25,13 +25,13 @@ ASSUMPTIONS = [
     "event-log file order respects happens-before",
     "multi-TAN / multi-WCS updates are attributed to the input most recently received by the same worker pid",
 ]
-PROFS = ["natural", "jitter", "slow_feeder", "slow_workers", "late_start", "burst", "slow_dispatcher", "pct", "late_check"]
+PROFS = ["natural", "jitter", "slow_feeder", "slow_workers", "late_start", "burst", "slow_dispatcher", "pct", "late_check", "stall", "slow_isset"]
 
 
 def cases(tier, seed):
     R = random.Random("c03/%d" % seed)
     out = []
-    n = 200 if tier == "quick" else 3600
+    n = 242 if tier == "quick" else 3630
     stages = ["leaves"] * 5 + ["u8", "f16", "doone", "mtan", "mtan", "mwcs"]
     combos = [(st_, pr_) for st_ in stages for pr_ in PROFS]  # every (stage, profile) pair, in a seeded random order
     R.shuffle(combos)
@@ -53,7 +53,7 @@ def cases(tier, seed):
             if prof == "burst":
                 s["par"] = 16
         else:
-            s["n_inputs"] = R.choice([1, 2, 3, 4, 6, 8])
+            s["n_inputs"] = R.choice([1, 2, 3, 4, 6, 8]) if prof != "stall" else R.choice([6, 8])
             s["fmt_bu"] = R.random() < 0.5
             if prof == "burst":
                 s["par"] = 8
@@ -514,7 +514,7 @@ def finish(agg, tier):
     miss = [s for s in ("leaves", "u8", "f16", "doone", "mtan", "mwcs") if c.get("runs_stage_" + s, 0) < 3]
     miss += [p for p in PROFS if c.get("runs_profile_" + p, 0) < 1]
     for st_ in ("leaves", "u8", "doone", "mtan", "mwcs"):
-        for pr_ in ("slow_feeder", "slow_workers", "late_start", "late_check"):
+        for pr_ in ("slow_feeder", "slow_workers", "late_start", "late_check", "stall"):
             if c.get("runs_%s_%s" % (st_, pr_), 0) < 1:
                 miss.append("%s under %s" % (st_, pr_))
     if c.get("log_timeouts_before_event_set", 0) < 1:
